@@ -120,6 +120,14 @@ func Bool(name string) bool {
 }
 
 func IsSymbolic() bool { return false }
+
+// And/Or/Implies evaluate both operands (no short-circuit branch in the SSA of the harness).
+func And(a, b bool) bool     { return a && b }
+func Or(a, b bool) bool      { return a || b }
+func Implies(a, b bool) bool { return !a || b }
+
+// Concrete: under the engine the path forks over the feasible values of x.
+func Concrete(x int) int { return x }
 func Thorough() bool   { load(); return rf.Tier == "thorough" }
 
 func Assume(c bool) {
